@@ -31,6 +31,8 @@ def check_case(case):
     from pddl_plus_parser.exporters import TrajectoryExporter
     from pddl_plus_parser.models import Operator, State
     res = Res()
+    if case.get("kind") == "file":
+        return check_file(case, res)
     world = PC.validate_plan_case(case)
     dom, objects, plan = case["dom"], case["objects"], case["plan"]
     allow = bool(case.get("allow"))
@@ -147,6 +149,84 @@ def check_case(case):
     return res
 
 
+# ---- the planner plans shipped with the repository ---------------------------------------------------------
+SHIPPED = [("tests/exporters_tests/elevators_domain.pddl", "tests/exporters_tests/elevators_p03.pddl", "tests/exporters_tests/elevators_p03_plan.solution"),
+           ("tests/exporters_tests/depot_numeric.pddl", "tests/exporters_tests/pfile2.pddl", "tests/exporters_tests/depot_numeric.solution"),
+           ("tests/exporters_tests/depot_numeric.pddl", "tests/exporters_tests/pfile2.pddl", "tests/exporters_tests/depot_numeric_faulty.solution"),
+           ("tests/exporters_tests/domain_spider.pddl", "tests/exporters_tests/pfile01_spider.pddl", "tests/exporters_tests/pfile01_spider.solution"),
+           ("tests/exporters_tests/minecraft_domain.pddl", "tests/exporters_tests/minecraft_problem.pddl", "tests/exporters_tests/minecraft_pfile0.solution"),
+           ("tests/exporters_tests/domain_miconic.pddl", "tests/exporters_tests/miconic_problem.pddl", "tests/exporters_tests/miconic_solution.solution")]
+
+
+def check_file(case, res):
+    """Differential replay of a shipped (domain, problem, plan) triple: reference parser + reference
+    interpreter versus DomainParser + ProblemParser + TrajectoryExporter."""
+    import os
+    from pathlib import Path
+    from pddl_plus_parser.exporters import TrajectoryExporter
+    from pddl_plus_parser.lisp_parsers import DomainParser, ProblemParser
+    from pv.ref import parse as rparse
+    repo = os.environ.get("PV_REPO", "/repo")
+    dpath, ppath, plpath = (os.path.join(repo, x) for x in (case["domain_file"], case["problem_file"], case["plan_file"]))
+    res.classes = ["shipped-plan"]
+    res.key = case["plan_file"]
+    try:
+        dom = rparse.parse_domain(open(dpath).read())
+        prob = rparse.parse_problem(open(ppath).read(), dom)
+        plan = rparse.read_plan(open(plpath).read())
+        world = pddl.World(dom, prob["objects"])
+    except (rparse.Unsupported, sexpr.Reject, OSError, KeyError, IndexError) as e:
+        res.skipped = f"reference-parser-unsupported:{type(e).__name__}"
+        return res
+    for allow in (False, True):
+        okl, out = lib_call(lambda: [(read_lib_state(t.previous_state), str(t.operator), read_lib_state(t.next_state)) for t in
+                                     TrajectoryExporter(DomainParser(Path(dpath)).parse_domain(), allow_invalid_actions=allow).parse_plan(
+                                         ProblemParser(Path(ppath), DomainParser(Path(dpath)).parse_domain()).parse_problem(), plan_path=Path(plpath))])
+        if not okl:
+            res.skipped = f"library-raised:{out.key}"
+            return res
+        try:
+            ref = PC.reference_run(dom, world, prob["state"], plan, ctx.active(S.F_NESTED))
+        except Exception as e:   # construct outside the reference interpreter
+            res.skipped = f"reference-interpreter-unsupported:{type(e).__name__}"
+            return res
+        info = {**case, "allow": allow}
+        if len(out) != len(plan):
+            res.bad("C04/file/length", {**info, "triplets": len(out), "plan_lines": len(plan)})
+            return res
+        trusted = True
+        n_checked = 0
+        for i, (r, (pre, op, post)) in enumerate(zip(ref, out)):
+            if i > 0 and not pddl.states_equal(out[i - 1][2], pre):
+                res.bad("C04/file/chain", {**info, "step": i})
+                return res
+            if not trusted or r["why"] is not None or r["applicable"] is None:
+                trusted = False
+                continue
+            if not pddl.states_equal(r["pre"], pre):
+                res.bad("C04/file/pre-state", {**info, "step": i, "diff": pddl.state_diff(r["pre"], pre)})
+                return res
+            if r["applicable"]:
+                if not pddl.states_equal(r["post"], post):
+                    res.bad("C04/file/successor", {**info, "step": i, "action": plan[i], "diff": pddl.state_diff(r["post"], post)})
+                    return res
+            elif allow:
+                trusted = False
+            elif not pddl.states_equal(r["pre"], post):
+                res.bad("C04/file/refused-step-changed-state", {**info, "step": i, "action": plan[i]})
+                return res
+            n_checked += 1
+        res.evals += n_checked
+        res.nontrivial = res.nontrivial or n_checked >= 3
+    return res
+
+
+def chunk_cases(tier, chunk):
+    for i, (d, p, pl) in enumerate(SHIPPED):
+        if i % chunk[1] == chunk[0]:
+            yield {"kind": "file", "domain_file": d, "problem_file": p, "plan_file": pl}
+
+
 def gen(ch, tier):
     case = PC.gen_plan_case(ch, tier, max_len=8 if tier == "quick" else 25)
     case["allow"] = ch.flag(0.3)
@@ -155,5 +235,7 @@ def gen(ch, tier):
 
 def plan(tier):
     if tier == "quick":
-        return {"streams": {"main": 3000}, "shards": 16}
-    return {"streams": {"main": 40000}, "shards": 16}
+        return {"exhaustive": [(i, 6) for i in range(6)], "streams": {"main": 6000}, "shards": 16, "exhaustive_is_complete": True,
+                "exhaustive_note": "the 6 (domain, problem, plan) triples shipped under tests/exporters_tests, replayed against the reference parser + interpreter"}
+    return {"exhaustive": [(i, 6) for i in range(6)], "streams": {"main": 40000}, "shards": 16, "exhaustive_is_complete": True,
+            "exhaustive_note": "the 6 shipped (domain, problem, plan) triples"}
